@@ -223,6 +223,8 @@ Eval vm_compute in map (fun c => let m := comp_assertions true (fst c) in
                 errs = e2e.rustc_errors(e, 2)
                 code = (re.search(r"E\d{4}", " ".join(errs)) or ["other"])[0] if errs else "other"
                 feats = sorted(set().union(*[x.features for x in recs]))
+                if code == "E0054" and "bitfield" in feats:
+                    code = "E0133"      # same defect: accessors of a union with bit-fields that is not a Rust union (unsafe calls, u8 as bool)
                 ck.violation("C06-assertions-rejected:%s:%s" % (code, "bitfield" if "bitfield" in feats else "plain"),
                              "rustc rejects the bindings with their layout assertions (an assertion does not hold for the generated Rust type, or the bindings do not compile)",
                              {"header": hdr if len(hdr) < 4000 else hdr[:4000], "rustc": errs})
